@@ -102,6 +102,7 @@ func VerifC04_JSONWriter(n, pattern int) {
 		vAssert(ok, "json-output-is-one-array-with-one-element-per-record-in-order")
 	}
 	vAssert(w.closed == 1 && w.afterClose == 0, "json-output-closed-once-after-the-last-write")
+	vAssert(!w.doneBeforeClose, "json-writer-does-not-announce-completion-before-the-output-is-closed")
 	vReach("end")
 }
 
@@ -139,6 +140,7 @@ func VerifC04_CSVWriter(n, pattern int) {
 		vAssert(lines == len(ids)+1, "csv-output-is-one-header-then-one-row-per-record-in-order")
 	}
 	vAssert(w.closed == 1 && w.afterClose == 0, "csv-output-closed-once-after-the-last-write")
+	vAssert(!w.doneBeforeClose, "csv-writer-does-not-announce-completion-before-the-output-is-closed")
 	vReach("end")
 }
 
@@ -164,6 +166,7 @@ func VerifC18_JSONWriter(n, pattern, csv int) {
 	hit := (failAt >= 0 && w.nWrites > failAt) || (closeFails && w.closed > 0)
 	vAssert(!hit || kind == 2, "writer-output-fault-is-fatal")
 	vAssert(hit || kind == 0, "writer-no-fault-no-error")
+	vAssert(!w.doneBeforeClose, "writer-completion-is-not-announced-before-a-close-that-may-fail")
 	if hit {
 		vReach("faulty")
 	}
